@@ -186,6 +186,21 @@ Theorem weights_matrix_groups_by_label : forall labels (w : list R) names nb ix,
 Proof. exact ScanProofs.weights_matrix_groups. Qed.
 Print Assumptions weights_matrix_groups_by_label.
 
+
+(* the label-based constructors (sensors.h init_labels): same grouping law - two integration points share a row exactly
+   when they carry the same label (repeated labels in any order); the row is the position of the label's first
+   occurrence and the object keeps one row per integration point *)
+Theorem weights_matrix_ctor_groups_by_label : forall (labels : list nat) (w : list R),
+  fst (ctor_weights_matrix Rops labels w) = length labels /\
+  length (ctor_index labels) = length labels /\
+  (forall i li, nth_error labels i = Some li ->
+     exists k, nth_error (ctor_index labels) i = Some k /\ index_of labels li = Some k /\ nth_error labels k = Some li /\
+     forall s wi, nth_error w i = Some wi -> weights_entry Rops (ctor_index labels) w s i = if Nat.eqb k s then wi else 0) /\
+  (forall i j li lj ki kj, nth_error labels i = Some li -> nth_error labels j = Some lj ->
+     nth_error (ctor_index labels) i = Some ki -> nth_error (ctor_index labels) j = Some kj -> (ki = kj <-> li = lj)).
+Proof. exact ScanProofs.ctor_groups_by_label. Qed.
+Print Assumptions weights_matrix_ctor_groups_by_label.
+
 (* hypotheses are satisfiable / the models compute what one expects on small instances *)
 Example head2eeg_row_example :
   head2eeg_row Qops w12_g w12_p = Some [(0%nat, 11 # 16); (1%nat, 1 # 16); (2%nat, 1 # 4)]%Q.
